@@ -34,6 +34,7 @@ type EsSpec struct {
 	PsChangeLone   bool // PsChange: the NEW PPS travels on its own (no SPS / VPS next to it) in front of that key frame
 	PartialPS      bool // H.265: some later key frames repeat SPS+PPS in-band without the VPS
 	AscChange      bool // AAC: a second sequence header with another channel configuration / object type mid-stream
+	TinyAac        bool // AAC: some frames are 1-4 bytes long (digital silence of a mono AAC-LC encoder is 4 bytes); they carry no tag and are matched by order
 	TinyAudio      bool // Opus / G.711: some frames are a single byte (Opus DTX); they carry no tag and are matched by order
 	LonePS         bool // some non-key frames are preceded by a PPS or an SPS on its own (parameter-set update sent separately)
 	MetaAudio      int  // metadata announces the audio track: 1 = audiocodecid only; 2 = audiocodecid and an audiosamplerate that is the SOURCE's rate (Opus from a 16 kHz microphone, G.711 at 8 kHz) - 0: neither
@@ -270,6 +271,9 @@ func BuildEs(r *rand.Rand, inc int, sp EsSpec) *EsStream {
 				}
 				if sp.TinyAudio && sp.ACodec != "aac" && len(es.Frames) > 20 && r.Intn(6) == 0 {
 					f.Audio = []byte{byte(1 + idx%250)}
+				}
+				if sp.TinyAac && sp.ACodec == "aac" && len(es.Frames) > 20 && r.Intn(6) == 0 {
+					f.Audio = [][]byte{{0x00, 0xC8, 0x00, 0x07}, {0x21, 0x10, 0x05}, {0x01, byte(1 + idx%250)}, {byte(1 + idx%250)}}[r.Intn(4)]
 				}
 				es.Frames = append(es.Frames, f)
 				idx++
